@@ -1,4 +1,5 @@
 import ServiceModel.Driver.Wire
+import ServiceModel.Inv.Monitors
 open SM SM.Wire
 
 /-- model mode: read op lines (either bare, or prefixed `OP ` as in a harness trace; all
@@ -46,9 +47,79 @@ partial def modelLoop (h : IO.FS.Stream) (out : IO.FS.Stream) (st : Option State
       IO.eprintln "first op must be genesis"
       IO.Process.exit 2
 
+/-- read one step block of a harness trace: (op line, R line, E lines, state lines); `none` at end of input -/
+partial def readBlock (h : IO.FS.Stream) : IO (Option (String × String × List String × List String)) := do
+  let rec strip (l : String) : String := String.ofList (l.toList.reverse.dropWhile (fun c => c = '\n' || c = '\r')).reverse
+  -- find the OP line
+  let rec findOp : IO (Option String) := do
+    let line ← h.getLine
+    if line.isEmpty then return none
+    let l := strip line
+    if l.startsWith "OP " then return some (String.ofList (l.toList.drop 3)) else findOp
+  match ← findOp with
+  | none => return none
+  | some op =>
+    let rec body (r : String) (es ss : List String) : IO (String × List String × List String) := do
+      let line ← h.getLine
+      if line.isEmpty then return (r, es.reverse, ss.reverse)
+      let l := strip line
+      if l = "END" then return (r, es.reverse, ss.reverse)
+      else if l.startsWith "R " then body l es ss
+      else if l.startsWith "E " then body r (l :: es) ss
+      else body r es (l :: ss)
+    let (r, es, ss) ← body "" [] []
+    return some (op, r, es, ss)
+
+/-- monitor mode: evaluate every monitor on every step of a harness trace.
+    Output: `V <step> <monitor> <message>` per violated clause, `P <step> <problem>` for
+    dump lines that do not parse, and a final `DONE steps=<n> violations=<k>`. -/
+partial def monitorLoop (h : IO.FS.Stream) (out : IO.FS.Stream) : IO Unit := do
+  let mut cfgp : Option (Config × Params) := none
+  let mut pre : Option State := none
+  let mut n : Nat := 0
+  let mut viol : Nat := 0
+  repeat
+    match ← readBlock h with
+    | none => break
+    | some (opl, r, es, ss) =>
+      n := n + 1
+      match parseOpLine opl with
+      | .genesis cfg params _ _ =>
+        cfgp := some (cfg, params)
+        let (s, bad) := parseState cfg params ss
+        for b in bad do out.putStrLn s!"P {n} unparsable state line: {b}"; viol := viol + 1
+        pre := some s
+      | .op o =>
+        match cfgp, pre with
+        | some (cfg, params), some s0 =>
+          let (s1, bad) := parseState cfg params ss
+          for b in bad do out.putStrLn s!"P {n} unparsable state line: {b}"; viol := viol + 1
+          let res := (parseRes r).getD (.panic "unparsable result line")
+          let effs := es.filterMap parseEffect
+          if effs.length ≠ es.length then out.putStrLn s!"P {n} unparsable effect line"; viol := viol + 1
+          let t : Mon.Step := { pre := s0, op := o, res := res, effs := effs, post := s1 }
+          for (name, vs) in Mon.allMonitors t do
+            for v in vs do
+              out.putStrLn s!"V {n} {name} {v}"
+              viol := viol + 1
+          pre := some s1
+        | _, _ => out.putStrLn s!"P {n} op before genesis"
+      | .invalid | .unknownCtx =>
+        -- stateless-invalid identifiers: the state must not change
+        match cfgp, pre with
+        | some (cfg, params), some s0 =>
+          let (s1, _) := parseState cfg params ss
+          if sortLines (stateLines s0) ≠ sortLines (stateLines s1) then
+            out.putStrLn s!"V {n} rejectedNoChange a rejected operation changed the state"; viol := viol + 1
+          pre := some s1
+        | _, _ => pure ()
+      | .bad msg => out.putStrLn s!"P {n} {msg}"; viol := viol + 1
+  out.putStrLn s!"DONE steps={n} violations={viol}"
+
 def main (args : List String) : IO UInt32 := do
   let stdin ← IO.getStdin
   let stdout ← IO.getStdout
   match args with
   | ["model"] => modelLoop stdin stdout none; return 0
-  | _ => IO.eprintln "usage: driver model < ops"; return 2
+  | ["monitor"] => monitorLoop stdin stdout; return 0
+  | _ => IO.eprintln "usage: driver model|monitor < trace"; return 2
